@@ -283,6 +283,16 @@ GROUPS = {
         nontrivial='configurations with two services',
         functions=['AddressLookupServices::{add_boxed, resolve}', 'AddressLookupStream::{empty, new, poll_next}'],
     ),
+    # second line behind the Verus unit relay_recv
+    'relay_recv_bx': dict(
+        unit='relay_recv.rs', props=['C17'],
+        bounds=dict(quick=['2', '0'], thorough=['3', '0']),
+        space='every queue of at most {0} batches from 42 (content lengths 0/1/3/4/5/8/9/12 x segment size none/1/2/4/5/9 where the batch holds more than one segment), for receive '
+              'buffers of 1/4/8/16 bytes and 1/2/3 slots; poll_recv is called until the input is drained, with a waker that counts wake-ups and a queue that records whether it '
+              'kept the waker',
+        nontrivial='queues with at least one multi-segment batch',
+        functions=['RelayTransport::{poll_recv, poll_recv_queue}', 'Datagrams::take_segments'],
+    ),
     # second line behind the Verus unit builder_bind
     'builder_bind_bx': dict(
         unit='builder_bind.rs', props=['C20'],
